@@ -231,7 +231,8 @@ def export_plan(p: ClassPlan) -> dict:
         out["tagged"][str(tag)] = {"tag": tag, "name": t.get("name"), "w_name": t.get("w_name"),
                                    "r_codec": jsonable(t.get("r_codec")), "w_codec": jsonable(t.get("w_codec")),
                                    "r": export_desc(t.get("r_desc")), "w": export_desc(t.get("w_desc")),
-                                   "r_default": jsonable(t.get("r_default")),
+                                   "r_default": ({"MISSING": True} if isinstance(t.get("r_default"), MissingType)
+                                                 else {"term": jsonable(term_of(t.get("r_default")))}),
                                    "arm_problem": (t.get("arm") or {}).get("opaque")}
     tg = p.r.get("tagged")
     out["reader"] = {"tagged": None if tg is None else {"count_max_bytes": tg["count_max_bytes"], "miss": jsonable(tg["miss"]),
